@@ -166,7 +166,7 @@ def run_case(case):
                 for wb in (False, True):
                     t0 = len(w.trace[rank])
                     msg = lo.transpose_and_check(h, G, a, b, wb, dtype=dtype, bufs=bufs)
-                    k = sum(1 for t in w.trace[rank][t0:] if t[2] == "Alltoall")
+                    k = sum(1 for t in w.trace[rank][t0:] if t[2].lower().startswith("alltoall"))
                     out["n"] += 1
                     if k > 1:
                         out["redirect"] += 1
